@@ -123,6 +123,8 @@ func run(c *runner.Ctx) {
 		globalModel["zz"] = mkModelFn("global-zz")
 	}
 	recursiveSpace(c, globalModel)
+	wideStructs(c)
+	repeatedSetRule(c)
 	lateNames(c)
 	samePrintingTypes(c)
 	vals := valueMenu()
@@ -484,6 +486,152 @@ func recursiveSpace(c *runner.Ctx, globalModel map[string]walk.Fn) {
 						} else {
 							c.Outcome(fmt.Sprintf("clauses=%d", len(exp.Fields)))
 						}
+					}
+				}
+			}
+		}
+	}
+}
+
+// wideStructs: a call-supplied rule wins over the tag rule of the field it names, whatever the field's index.
+func wideStructs(c *runner.Ctx) {
+	c.Space(c.Mode + ":wide-structs")
+	for _, n := range []int{3, 63, 64, 65, 70, 130} {
+		var sf []reflect.StructField
+		for i := 0; i < n; i++ {
+			sf = append(sf, reflect.StructField{Name: fmt.Sprintf("F%03d", i), Type: reflect.TypeOf(""), Tag: reflect.StructTag(fmt.Sprintf(`valid:"to=1~3|tag-%d" wide:"%d"`, i, n))})
+		}
+		wt := reflect.StructOf(sf)
+		outer := reflect.StructOf([]reflect.StructField{{Name: "Head", Type: reflect.TypeOf(""), Tag: `valid:"required|need-head"`}, {Name: "W", Type: reflect.PtrTo(wt), Tag: `valid:"exist"`}})
+		for i := 0; i < n; i++ {
+			for mode := 0; mode < 3; mode++ {
+				if !c.Take() {
+					continue
+				}
+				w := reflect.New(wt)
+				for j := 0; j < n; j++ {
+					if j%7 == i%7 {
+						w.Elem().Field(j).SetString("abcdefg")
+					} else if j%2 == 0 {
+						w.Elem().Field(j).SetString("ab")
+					}
+				}
+				rule := map[string]string{fmt.Sprintf("F%03d", i): fmt.Sprintf("eq=5|call-%d", i)}
+				var src interface{} = w.Interface()
+				opts := walk.Opts{}
+				vs := valid.NewVStruct()
+				switch mode {
+				case 0: // untargeted rule set, the wide struct is the outermost object
+					opts.Unscoped = rule
+					vs.SetRule(toRM(rule))
+				case 1: // rule set targeted at the wide type, reached as a nested object
+					o := reflect.New(outer)
+					o.Elem().Field(1).Set(w)
+					src = o.Interface()
+					opts.Typed = map[reflect.Type]map[string]string{wt: rule}
+					vs.SetRule(toRM(rule), w.Interface())
+				case 2: // targeted, outermost
+					opts.Typed = map[reflect.Type]map[string]string{wt: rule}
+					vs.SetRule(toRM(rule), reflect.New(wt).Elem().Interface())
+				}
+				exp := walk.Struct(src, opts)
+				var err error
+				pan, msg, site := runner.Guard(func() { err = vs.Valid(src) })
+				c.Done(i >= 2, 1)
+				actual := ""
+				if err != nil {
+					actual = err.Error()
+				}
+				det := map[string]interface{}{"fields": n, "rule_for_field": i, "mode": []string{"untargeted", "targeted-nested", "targeted-outermost"}[mode], "expected": exp.Error(), "actual": actual}
+				if pan {
+					det["panic"] = msg
+					c.Violation("panic@"+site, det)
+					continue
+				}
+				// the type name of an unnamed struct holds "; ": compare clause multisets on the explanation part
+				if got, want := explainParts(actual), explainParts(exp.Error()); got != want {
+					det["got_explanations"], det["want_explanations"] = got, want
+					c.Violation("wide-struct/call-rule-not-applied-or-misapplied", det)
+				} else {
+					c.Outcome("wide-ok")
+				}
+			}
+		}
+	}
+}
+
+func explainParts(e string) string {
+	var out []string
+	for _, p := range strings.Split(e, "explain: ")[1:] {
+		if k := strings.Index(p, ";"); k >= 0 {
+			p = p[:k]
+		}
+		out = append(out, p)
+	}
+	return strings.Join(out, "|")
+}
+
+// repeatedSetRule: two rule sets registered for the same target in one call (the later one is the one in force), then
+// a later call that passes the first set alone: it is judged by exactly what that set holds, and the caller's maps are
+// the caller's.
+func repeatedSetRule(c *runner.Ctx) {
+	c.Space(c.Mode + ":rule-set-reused-after-a-call-with-two-sets")
+	bases := []map[string]string{{"Name": "eq=4|base-name"}, {"Next": "required|base-next"}, {}}
+	extras := []map[string]string{{"Name": "eq=5|extra-name"}, {"Children": "required|extra-children", "Name": "to=1~2|extra-name2"}, {"Next": "required|extra-next"}}
+	names := []string{"", "abcd", "abcde", "abcdefghijklm"}
+	for bi, base := range bases {
+		for ei, extra := range extras {
+			for _, typed := range []bool{false, true} {
+				for _, nm := range names {
+					if !c.Take() {
+						continue
+					}
+					mk := func() *Node { return &Node{Name: nm, Next: &Node{Name: nm}} }
+					b, e := toRM(base), toRM(extra)
+					vs := valid.NewVStruct()
+					o1, o2 := walk.Opts{}, walk.Opts{}
+					if typed {
+						vs.SetRule(b, &Node{}).SetRule(e, Node{})
+						o1.Typed = map[reflect.Type]map[string]string{reflect.TypeOf(Node{}): extra}
+						o2.Typed = map[reflect.Type]map[string]string{reflect.TypeOf(Node{}): base}
+					} else {
+						vs.SetRule(b).SetRule(e)
+						o1.Unscoped, o2.Unscoped = extra, base
+					}
+					var err1, err2 error
+					pan, msg, site := runner.Guard(func() {
+						err1 = vs.Valid(mk())
+						v2 := valid.NewVStruct()
+						if typed {
+							v2.SetRule(b, &Node{})
+						} else {
+							v2.SetRule(b)
+						}
+						err2 = v2.Valid(mk())
+					})
+					c.Done(true, 2)
+					txt := func(e error) string {
+						if e == nil {
+							return ""
+						}
+						return e.Error()
+					}
+					det := map[string]interface{}{"base": base, "extra": extra, "typed": typed, "name": nm, "first_call": txt(err1), "second_call": txt(err2),
+						"first_expected": walk.Struct(mk(), o1).Error(), "second_expected": walk.Struct(mk(), o2).Error(), "base_after": map[string]string(b), "bi": bi, "ei": ei}
+					if pan {
+						det["panic"] = msg
+						c.Violation("panic@"+site, det)
+						continue
+					}
+					switch {
+					case !reflect.DeepEqual(map[string]string(b), base) || !reflect.DeepEqual(map[string]string(e), extra):
+						c.Violation("two-sets/callers-rule-set-modified", det)
+					case txt(err2) != walk.Struct(mk(), o2).Error():
+						c.Violation("two-sets/later-call-with-first-set-judged-differently", det)
+					case txt(err1) != walk.Struct(mk(), o1).Error():
+						c.Violation("two-sets/call-with-two-sets", det)
+					default:
+						c.Outcome("two-sets-ok")
 					}
 				}
 			}
